@@ -56,6 +56,11 @@ def render(item, name):
         body = (attrs_text(ms[0]["attrs"], "    ") + "    pub first: T,\n" + attrs_text(ms[1]["attrs"], "    ") +
                 "    #[serde(skip)]\n    pub second: std::marker::PhantomData<&'a T>,\n")
         return f"{outer}{derive}pub struct {name}<'a, T: Default + Clone>\nwhere\n    T: serde::Serialize,\n{{\n{body}}}\n"
+    if k in LEN_EXPR:
+        # serde_derive is built on the derive-only syn and refuses these expressions by itself: builtin derives only, no serde mix
+        ser = lambda attrs: [a for a in attrs if not a["text"].startswith("#[serde") and "serde(" not in a["text"]]
+        return (f"{outer}#[derive(Clone, Copy, attrdump::AttrDump)]\npub struct {name} {{\n{attrs_text(ser(ms[0]['attrs']), '    ')}    pub bytes: [u8; {LEN_EXPR[k]}],\n"
+                f"{attrs_text(ser(ms[1]['attrs']), '    ')}    pub tag: u32,\n}}\n")
     if k == "alias":
         return f"{outer}pub type {name} = Vec<u32>;\n"
     if k == "const":
@@ -63,9 +68,12 @@ def render(item, name):
     raise ValueError(k)
 
 
+LEN_EXPR = {"struct_len_if": 'if cfg!(target_pointer_width = "64") { 8 } else { 4 }', "struct_len_block": "{ let n = 2; n * 2 }", "struct_len_index": "[4usize, 8][1]"}
+
+
 def probe(kind, name):
     """(serde_json of a default value, size_of, the attributes a derive placed after #[typeshare] was handed)"""
-    if kind == "union":
+    if kind == "union" or kind in LEN_EXPR:
         return f'(String::new(), std::mem::size_of::<{name}>(), ATTR_DUMP)'
     if kind == "generic_struct":
         return f'(serde_json::to_string(&{name}::<\'static, u32>::default()).unwrap(), std::mem::size_of::<{name}<\'static, u32>>(), ATTR_DUMP)'
@@ -194,7 +202,7 @@ def run(chk):
             a, b = an[i], tw[i]
             events.append({"case": i, "annotated_compiles": a is not None, "twin_compiles": b is not None,
                            "same_json": a is not None and b is not None and a[0] == b[0], "same_size": a is not None and b is not None and a[1] == b[1],
-                           "same_attrs": a is not None and b is not None and a[2] == b[2], "attrs": [a[2] if a else None, b[2] if b else None]})
+                           "same_attrs": a is not None and b is not None and a[2] == b[2], "attrs": [a[2] if a else "<did not compile>", b[2] if b else "<did not compile>"]})
     chk.extra["rustc_invocations"] = stats["compiles"]
     chk.extra["compile_errors_sample"] = stats.get("errors", [])[:3]
     if all(not e["twin_compiles"] for e in events):
@@ -208,7 +216,8 @@ def run(chk):
         c = cases[e["case"]]
         at = sorted(c["at"])
         posnames = {"named_struct": {1: "field", 2: "field", 3: "field"}, "tuple_struct": {1: "tuple-field"}, "enum": {1: "variant", 2: "variant", 3: "tuple-variant-field", 4: "struct-variant-field"},
-                    "union": {1: "union-field", 2: "union-field"}, "generic_struct": {1: "field", 2: "field"}}.get(c["item"]["kind"], {})
+                    "union": {1: "union-field", 2: "union-field"}, "generic_struct": {1: "field", 2: "field"},
+                    "struct_len_if": {1: "field", 2: "field"}, "struct_len_block": {1: "field", 2: "field"}, "struct_len_index": {1: "field", 2: "field"}}.get(c["item"]["kind"], {})
         where = "+".join(sorted({posnames.get(p, "?") for p in at})) or "item-only"
         if c["item"]["kind"] == "enum" and 2 in at and 3 in at:
             where += "(same-variant)"
